@@ -127,6 +127,10 @@ NodeCalls ==
   \* the sequence form: two pairs with one replacement (failure at the second pair after the first was applied)
   \cup {c \in {[C("ReplaceAllUsesSeq") EXCEPT !.vs = <<v1, v2>>, !.ws = <<w, w>>, !.flag = f] :
                   v1 \in PV, v2 \in PV, w \in PV, f \in BOOLEAN} : c.vs[1] # c.vs[2]}
+  \* a chain: the replacement of the first pair is the value replaced by the second (what the first pair leaves
+  \* behind - an output role, an owner - decides whether the second is acceptable)
+  \cup {c \in {[C("ReplaceAllUsesSeq") EXCEPT !.vs = <<v1, v2>>, !.ws = <<v2, w>>, !.flag = f] :
+                  v1 \in PV, v2 \in PV, w \in PV, f \in BOOLEAN} : c.vs[1] # c.vs[2] /\ c.ws[2] # c.vs[2]}
 
 \* node pairs: all ordered pairs of distinct nodes plus one repeated pair
 NPairs2 == {q \in NPairs : q[1] # q[2] \/ q[1] = 1}
